@@ -85,6 +85,11 @@ def run_property(pid, tier):
             f = dict(f)
             f["unit"] = unit
             f["verifier_output"] = _verifier_excerpt(r.raw_err, f)
+            if f["id"].startswith("AUX."):
+                # an auxiliary obligation (e.g. termination of a loop no listed property speaks about): proved and reported in the evidence
+                # while it holds; when it stops being proved this is not a violation of the property -> undecided (exit 2), never an alarm
+                undecided.append("auxiliary obligation %s of unit %s is no longer proved (not a clause of any listed property): %s" % (f["id"], unit, f.get("message")))
+                continue
             m = re.match(r"(C\d\d)\.", f["id"])
             if m and m.group(1) != pid and pid not in f.get("also", []) and m.group(1) in P.claimed() and unit in P.claimed()[m.group(1)].get("verus", []):
                 other_props_failed.append({"id": f["id"], "reported_under": m.group(1)})   # a clause of another property: decided and reported by that property's check
